@@ -143,12 +143,29 @@ static std::vector<IJ> lattice_walk(Rng& rng, int G, int n, bool clean) {
 
 static void gen_path_case(Ctx& ctx, Case& c, uint64_t i) {
   Rng& rng = ctx.rng;
-  int cls = (int)(i % 7);        // 0,1: tiny lattice  2: translated  3: scaled  4: affine lattice at 2^40  5: strip  6: tiny
+  int cls = (int)((i / 8) % 8);  // (i % 8 == 7 is the ellipse case)  0,1: tiny lattice  2: translated  3: scaled  4: affine lattice at 2^40  5: strip  6: tiny  7: wrap corners
   int n = rng.chance(0.25) ? rng.irange(0, 5) : rng.irange(6, 40);
   Path64 p;
   std::vector<double> thr = { 0, 1, 1.5, 3, 10 };
   std::string magname;
-  if (cls == 5) {
+  if (cls == 7) {
+    // corners whose cross product is exactly +-2^w (w = 16..96; edge components below 2^38): zero in a w-bit word, so a
+    // collinearity test that compares truncated or carry-less products removes a genuine corner
+    int64_t x = rng.chance(0.5) ? 0 : rng.range(-((int64_t)1 << 40), (int64_t)1 << 40), y = rng.chance(0.5) ? 0 : rng.range(-((int64_t)1 << 40), (int64_t)1 << 40);
+    int made = 0;
+    n = std::min(std::max(n, 4), 12);                     // |coordinates| stay below 2^43 (the PathD variant scales by up to 125)
+    p.emplace_back(x, y);
+    while ((int)p.size() < n) {
+      int64_t v[4]; int w = 0;
+      if (rng.chance(0.6) && wrap_twin_any(rng, 38, v, &w)) {
+        Point64 q = p.back(); p.emplace_back(q.x + v[0], q.y + v[2]); p.emplace_back(q.x + v[0] + v[3], q.y + v[2] + v[1]); ++made;
+        if (w == 64) ctx.count("gen_wrap_corners_with_cross_product_exactly_2^64");
+      } else { Point64 q = p.back(); p.emplace_back(q.x + rng.range(-((int64_t)1 << 33), (int64_t)1 << 33), q.y + rng.range(-((int64_t)1 << 33), (int64_t)1 << 33)); }
+    }
+    ctx.count("gen_wrap_corners_made", made);
+    thr.push_back(std::ldexp(1.0, 30));
+    magname = "wrap_corners";
+  } else if (cls == 5) {
     // long thin strip: abscissae up to 2^40, offsets within +-12 of the axis; three orientations
     int orient = rng.irange(0, 2);
     int64_t span = (int64_t)1 << rng.irange(20, 40);
